@@ -4,6 +4,7 @@
 From Coq Require Import List ZArith Bool Arith Strings.Byte.
 From Coq Require Import Uint63.
 From WH Require Import lib.Bytes lib.Wire gen.Extracted gen.ExtractedP2P model.Vaa model.P2PVerify.
+From WH Require lib.Keccak.
 Import ListNotations.
 Open Scope Z_scope.
 
@@ -78,3 +79,7 @@ End W.
 (* -1 = all steps agree; -3 = stopped at a discarded cleanup step; otherwise index of the first differing step *)
 Definition check_p2hist (h : p2hist) : Z :=
   cmp_steps (p2_tbl_rec (ph_rec h)) (p2_tbl1 (ph_keccak h)) (p2_tbl_dec (ph_dechb h)) (p2_tbl_bool (ph_decreq h)) ninit (ph_ops h) (ph_expect h) 0.
+
+(* the recorded Keccak table is checked against the executable Gallina Keccak-256 (lib/Keccak.v) in the same evaluation:
+   -2 = some recorded (input, output) pair is not a value of keccak256; otherwise the result of check_p2hist *)
+Definition check_p2hist_k (h : p2hist) : Z := if WH.lib.Keccak.keccak_table_ok (ph_keccak h) then check_p2hist h else -2.
